@@ -115,3 +115,16 @@ Fixpoint boundaries (som : bool) (tf : option (list N)) (q : bstate) (pos : N) (
       let '(q', st) := bstep som tf q b pos in
       (if st then [(pos, kind_eqb (b_kind b) KStyp)] else []) ++ boundaries som tf q' (u64 (pos + b_size b)) t
   end.
+
+(* ---------------------------------------------------------------- fragment shape *)
+Definition all_emsg (l : list topbox) : bool := forallb (fun b => kind_eqb (b_kind b) KEmsg) l.
+
+(* the children of a fragment are  emsg* [moof [mdat] emsg*]  and Moof / Mdat point at those boxes *)
+Definition frag_shape (fr : fragment) : Prop :=
+  exists es1 es2, all_emsg es1 = true /\ all_emsg es2 = true /\
+    match fr_moof fr, fr_mdat fr with
+    | None, None => fr_children fr = es1 /\ es2 = []
+    | Some m, None => fr_children fr = es1 ++ m :: es2 /\ b_kind m = KMoof
+    | Some m, Some d => fr_children fr = es1 ++ m :: d :: es2 /\ b_kind m = KMoof /\ b_kind d = KMdat
+    | None, Some _ => False
+    end.
